@@ -256,9 +256,13 @@ pub fn check_meaning(d: &Decl, it: &Interp) -> Result<u64, String> {
             if p == "_" {
                 default = Some(b.clone());
             } else {
-                let id = parse_id_pat(p).ok_or(format!("fn {}: pattern {} is not an id literal", f, p))?;
-                if m.insert(id, b.clone()).is_some() {
-                    return Err(format!("fn {}: two arms for id {:#x}", f, id));
+                // `1u64 | 2u64 => x` is as good as two arms
+                for part in p.split('|') {
+                    let part = part.trim();
+                    let id = parse_id_pat(part).ok_or(format!("fn {}: pattern {} is not an id literal", f, p))?;
+                    if m.insert(id, b.clone()).is_some() {
+                        return Err(format!("fn {}: two arms for id {:#x}", f, id));
+                    }
                 }
             }
         }
@@ -373,6 +377,34 @@ pub fn gen_decl(t: &mut Tape) -> (Decl, SpecTable) {
             d.vars.swap(k, j);
         }
     }
+    // names are arbitrary identifiers: half of the declarations use names over a two-letter alphabet (A, B, AA, AB, ...), so that one
+    // name can be the concatenation of others — whatever the macro keys by name or by a rendered path must still tell them apart
+    if t.chance(1, 2) {
+        let n = d.vars.len();
+        let mut pool: Vec<String> = Vec::new();
+        let mut len = 1;
+        while pool.len() < n + 6 {
+            for k in 0..(1usize << len) {
+                pool.push((0..len).map(|b| if k >> (len - 1 - b) & 1 == 0 { 'A' } else { 'B' }).collect());
+            }
+            len += 1;
+        }
+        for k in (1..pool.len()).rev() {
+            let j = t.below(k + 1);
+            pool.swap(k, j);
+        }
+        let map: std::collections::HashMap<String, String> = d.vars.iter().enumerate().map(|(k, v)| (v.name.clone(), pool[k].clone())).collect();
+        for v in d.vars.iter_mut() {
+            v.name = map[&v.name].clone();
+            for p in v.path.iter_mut() {
+                if let PP::Name(x) = p {
+                    if let Some(y) = map.get(x) {
+                        *x = y.clone();
+                    }
+                }
+            }
+        }
+    }
     (d, spec)
 }
 
@@ -391,6 +423,7 @@ fn stage_valid(i: &Input, c: &mut Case) -> Result<(), String> {
     c.label_if(spec.elems.iter().any(|e| e.path.len() > 1 && matches!(e.path[e.path.len() - 1], PathPart::Id(_)) && e.path.iter().any(|p| matches!(p, PathPart::Global(_)))), "intermediate_placeholder");
     c.label_if(depth >= 3, "depth3plus");
     c.label_if(d.vars.iter().any(|v| v.attr_order != 0 && !v.path.is_empty()), "attributes_in_another_order");
+    c.label_if(d.vars.iter().any(|v| !v.name.starts_with('V')), "names_over_a_two_letter_alphabet");
     c.label_if(d.vars.iter().enumerate().any(|(k, v)| v.path.iter().any(|p| matches!(p, PP::Name(n) if d.vars[k + 1..].iter().any(|w| &w.name == n)))), "child_declared_before_parent");
     let a = expand_attribute(&a_src);
     let e = expand_easy(&e_src);
@@ -571,7 +604,16 @@ pub fn break_decl(t: &mut Tape, d: &Decl, kind: usize) -> Option<Decl> {
 fn stage_broken(i: &Input, c: &mut Case) -> Result<(), String> {
     let mut t = Tape::new(i.tape());
     let (d, _) = gen_decl(&mut t);
-    let kind = t.below(BREAKS.len());
+    let drawn = t.below(BREAKS.len());
+    // debugging aid for re-recording pins against a reverted fix: EBV_C18_KIND=<name> forces one kind of edit
+    let kind = match std::env::var("EBV_C18_KIND") {
+        Ok(k) => BREAKS.iter().position(|b| *b == k).unwrap_or(drawn),
+        Err(_) => drawn,
+    };
+    if std::env::var("EBV_C18_SKIP").map(|k| k == BREAKS[kind]).unwrap_or(false) {
+        c.skipped = true;
+        return Ok(());
+    }
     let Some(b) = break_decl(&mut t, &d, kind) else {
         c.skipped = true;
         c.exclude("no_site_for_this_edit");
